@@ -172,6 +172,16 @@ def shape_corpus():
         if len(highs) >= 2:
             a(mk("btab_min_%02x" % bnd, [tok(bytes([bnd])), tok(bytes([highs[0]])), tok(bytes([highs[1]]))] + [tok(bytes([x])) for x in highs[2:]], utf8=False))
             a(mk("btab_cls_min_%02x" % bnd, [rx(b"(?-u)[\\x%02x-\\x%02x]+" % (bnd, highs[1])), tok(bytes([highs[0]])), tok(b"\xff\xff" if bnd < 0xfe else b"\x05")], utf8=False))
+    # --- a self loop over ALL 256 bytes (only possible with utf8 = false): the state has no way out but the end of input
+    a(mk("full_loop", [rx(b"#(?s-u:.)*", greedy=True), tok(b"x"), tok(b"#")], utf8=False))
+    a(mk("full_loop_plus", [rx(rb"[\x00-\xff]+", greedy=True)], utf8=False))
+    a(mk("full_loop_skip", [tok(b"x")], [skip(b"%(?s-u:.)*", greedy=True)], utf8=False))
+    # --- overlaps at equal priority that a third, higher-priority pattern covers completely (declared first, between, last)
+    a(mk("tie_masked_last", [rx("[a-c]"), rx("[c-e]"), tok("c", prio=3)]))
+    a(mk("tie_masked_first", [tok("c", prio=3), rx("[a-c]"), rx("[c-e]")]))
+    a(mk("tie_masked_mid", [rx("[a-c]"), tok("c", prio=3), rx("[c-e]")]))
+    a(mk("tie_masked_rx", [rx("[a-c]x?"), rx("[c-e]x?"), rx("cx?", prio=9)]))
+    a(mk("tie_masked_partly", [rx("[a-c]"), rx("[b-e]"), tok("c", prio=3)]))
     # --- literals with metacharacters, case folding
     for i, w in enumerate(["a.b", "a+b*", "(x)", "[y]", "{1,2}", "a|b", "^$", "\\d", "a\\", "?", "\"q\"", "a b\tc\n", "(?i)x", "(?&n)"]):
         a(mk("meta%d" % i, [tok(w), rx("[a-z]+")]))
